@@ -420,8 +420,11 @@ def examine(ctx, batch, case, want, rng, max_all=10):
             counts = impl_counts(enc, inst)
         except Exception:
             counts = None
-        if counts is not None:
+        if counts is not None and n <= 48:
             batch.add(lit_ham(inst, L, P, "", terms, scale * 1e-9, counts), case)
+        elif counts is not None:
+            # the term-by-term comparison through the model's normal form costs minutes for ~1000 qubits: oracle only
+            ctx.tally("large-n:model-hamiltonian-comparison-skipped")
         if 1 <= n <= 12:
             diag = diag_of_terms(terms, n)
             if n <= 6:  # cross-check of the direct Z-string evaluation against Qiskit's own matrix
